@@ -14,6 +14,7 @@ static inline int iora_isa(int exc, int ty) { return exc == ty; }
 size_t G_stoul_calls /* saturates at 2 */, G_stoul_off, G_stoul_n;
 unsigned long G_stoul_ret;
 int G_stoul_exc;
+const char *G_stoul_base;   /* native/SEARCH builds: start of the request buffer (offsets are relative to it) */
 
 #define HX_IS(c_) (((c_) >= (char)48 && (c_) <= (char)57) || ((c_) >= (char)65 && (c_) <= (char)70) || ((c_) >= (char)97 && (c_) <= (char)102))
 #define HX_V(c_) ((unsigned long)((c_) <= (char)57 ? (c_) - 48 : ((c_) <= (char)70 ? (c_) - 55 : (c_) - 87)))
@@ -31,7 +32,8 @@ static inline unsigned long iora_stoul(iora_sv s, void *idx, int base)
   if (i < s.n && HX_SIGN(s.p[i])) { neg = s.p[i] == (char)45; i++; }
   if (i + 1 < s.n && s.p[i] == (char)48 && HX_X(s.p[i + 1]) && i + 2 < s.n && HX_IS(s.p[i + 2])) i += 2;
   while (i < s.n && HX_IS(s.p[i])) { if (v >> 60) ovf = 1; v = (v << 4) | HX_V(s.p[i]); any = 1; i++; }
-  if (G_stoul_calls < 2) G_stoul_calls++; G_stoul_off = (size_t)(s.p - (const char *)0); G_stoul_n = s.n;
+  IORA_ASSERT(G_stoul_calls == 0 || (size_t)(s.p - G_stoul_base) > G_stoul_off, "progress: every chunk-size line the scan parses starts after the previous one");
+  if (G_stoul_calls < 2) G_stoul_calls++; G_stoul_off = (size_t)(s.p - G_stoul_base); G_stoul_n = s.n;
   if (!any) { iora_exc = EXC_invalid_argument; G_stoul_exc = iora_exc; return 0; }
   if (ovf) { iora_exc = EXC_out_of_range; G_stoul_exc = iora_exc; return 0; }
   G_stoul_exc = 0;
@@ -45,6 +47,8 @@ static inline unsigned long iora_stoul(iora_sv s, void *idx, int base)
 #define ST_R __CPROVER_return_value
 unsigned long iora_stoul_env(size_t n, char c0, char c1, size_t off, int base)
   __CPROVER_requires(IORA_TRUE && base == 16 && iora_exc == EXC_NONE)
+  /* progress (ghost check at the point of use): every chunk-size line the scan parses starts after the previous one */
+  __CPROVER_requires(G_stoul_calls == 0 || off > G_stoul_off)
   __CPROVER_assigns(iora_exc, G_stoul_calls, G_stoul_off, G_stoul_n, G_stoul_ret, G_stoul_exc)
   __CPROVER_ensures(iora_exc == EXC_NONE || iora_exc == EXC_invalid_argument || iora_exc == EXC_out_of_range)
   /* nothing to convert */
